@@ -252,6 +252,9 @@ func (p *Prog) atoms(e ast.Expr, val bool, env *Env, frozen map[types.Object]boo
 	case *ast.CallExpr:
 		// a boolean helper of the module: what its answer implies
 		out := []Atom{{E: e, Val: val, Env: env, Frozen: frozen}}
+		if inl := p.inlineLocals(e, env, frozen, 0); inl != e {
+			out = append(out, Atom{E: inl, Val: val, Env: env, Frozen: frozen})
+		}
 		return append(out, p.impliedByCall(x, val, env, depth)...)
 	case *ast.Ident:
 		out := []Atom{{E: e, Val: val, Env: env, Frozen: frozen}}
@@ -260,11 +263,102 @@ func (p *Prog) atoms(e ast.Expr, val bool, env *Env, frozen map[types.Object]boo
 				if b, ok := p.TypeOf(d.Rhs).Underlying().(*types.Basic); ok && b.Info()&types.IsBoolean != 0 {
 					out = append(out, p.atoms(d.Rhs, val, d.Env, nil, depth+1)...)
 				}
+			} else if d != nil && d.Rhs != nil && d.Idx >= 0 && d.Kind == DefAssign {
+				// one of several results of a helper that only computes and returns them
+				if ut, ok := p.Unwrap(Term{E: d.Rhs, Env: d.Env, Idx: d.Idx}); ok {
+					if b, isB := p.TypeOf(x).Underlying().(*types.Basic); isB && b.Info()&types.IsBoolean != 0 {
+						out = append(out, p.atoms(ut.E, val, ut.Env, nil, depth+1)...)
+					}
+				}
 			}
 		}
 		return out
 	}
-	return []Atom{{E: e, Val: val, Env: env, Frozen: frozen}}
+	out := []Atom{{E: e, Val: val, Env: env, Frozen: frozen}}
+	// the same fact with the locals that only hold a value read earlier (v := x.Get()) written out
+	if inl := p.inlineLocals(e, env, frozen, 0); inl != e {
+		out = append(out, Atom{E: inl, Val: val, Env: env, Frozen: frozen})
+	}
+	return out
+}
+
+// inlineLocals returns e, or a copy of e in which identifiers with a known single definition are replaced
+// by the defining call / selector / index expression (the reverse of "read once into a local").  Original
+// sub-expressions are reused, so type and callee resolution keep working below the rewritten spine.
+func (p *Prog) inlineLocals(e ast.Expr, env *Env, frozen map[types.Object]bool, depth int) ast.Expr {
+	if e == nil || depth > 3 || env == nil {
+		return e
+	}
+	in := func(x ast.Expr) ast.Expr { return p.inlineLocals(x, env, frozen, depth) }
+	switch x := e.(type) {
+	case *ast.Ident:
+		o := p.ObjOf(x)
+		if o == nil || frozen[o] {
+			return e
+		}
+		d := env.get(o)
+		if d == nil || d.Rhs == nil || d.Kind != DefAssign || d.Idx > 0 {
+			return e
+		}
+		switch r := unparen(d.Rhs).(type) {
+		case *ast.CallExpr:
+			if d.Idx == 0 {
+				return e // first of several results: not the call itself
+			}
+			return p.inlineLocals(r, d.Env, nil, depth+1)
+		case *ast.SelectorExpr, *ast.IndexExpr:
+			return p.inlineLocals(r.(ast.Expr), d.Env, nil, depth+1)
+		}
+		return e
+	case *ast.ParenExpr:
+		if n := in(x.X); n != x.X {
+			return &ast.ParenExpr{Lparen: x.Lparen, X: n, Rparen: x.Rparen}
+		}
+	case *ast.SelectorExpr:
+		if n := in(x.X); n != x.X {
+			return &ast.SelectorExpr{X: n, Sel: x.Sel}
+		}
+	case *ast.StarExpr:
+		if n := in(x.X); n != x.X {
+			return &ast.StarExpr{Star: x.Star, X: n}
+		}
+	case *ast.UnaryExpr:
+		if n := in(x.X); n != x.X {
+			return &ast.UnaryExpr{OpPos: x.OpPos, Op: x.Op, X: n}
+		}
+	case *ast.BinaryExpr:
+		a, b := in(x.X), in(x.Y)
+		if a != x.X || b != x.Y {
+			return &ast.BinaryExpr{X: a, OpPos: x.OpPos, Op: x.Op, Y: b}
+		}
+	case *ast.IndexExpr:
+		a, b := in(x.X), in(x.Index)
+		if a != x.X || b != x.Index {
+			return &ast.IndexExpr{X: a, Lbrack: x.Lbrack, Index: b, Rbrack: x.Rbrack}
+		}
+	case *ast.CallExpr:
+		changed := false
+		fun := x.Fun
+		if sel, ok := unparen(x.Fun).(*ast.SelectorExpr); ok {
+			if _, isPkg := p.ObjOf(identOf(sel.X)).(*types.PkgName); !isPkg {
+				if n := in(sel.X); n != sel.X {
+					fun = &ast.SelectorExpr{X: n, Sel: sel.Sel}
+					changed = true
+				}
+			}
+		}
+		args := make([]ast.Expr, len(x.Args))
+		for i, a := range x.Args {
+			args[i] = in(a)
+			if args[i] != a {
+				changed = true
+			}
+		}
+		if changed {
+			return &ast.CallExpr{Fun: fun, Lparen: x.Lparen, Args: args, Ellipsis: x.Ellipsis, Rparen: x.Rparen}
+		}
+	}
+	return e
 }
 
 // disjuncts returns, for a compound fact that is a disjunction, the list of alternatives;
